@@ -183,8 +183,11 @@ func treeBody(only func(p *pkgSpec) bool) nd.Body {
 // handler configuration x payload spelling; content of <= n nodes where
 // namespace, configuration and spelling are the defaults.
 func headerBody(r0 int) nd.Body {
-	type hc struct{ cfg, cb int }
-	hcs := []hc{{cfgFull, 0}, {cfgFull, 1}, {cfgNil, 0}, {cfgEmpty, 0}}
+	type hc struct {
+		cfg, cb int
+		unaddr  bool
+	}
+	hcs := []hc{{cfgFull, 0, false}, {cfgFull, 1, false}, {cfgNil, 0, false}, {cfgEmpty, 0, false}, {cfgNil, 0, true}, {cfgFull, 0, true}}
 	return func(c *nd.Ctx) nd.Result {
 		if !rank(c, r0) {
 			return nd.Result{Skip: true}
@@ -211,8 +214,8 @@ func headerBody(r0 int) nd.Body {
 		if tg.dup {
 			return nd.Result{Skip: true}
 		}
-		rc := runCfg{ns: ns, cfg: cf.cfg, cb: cf.cb}
-		if cf.cfg == cfgFull {
+		rc := runCfg{ns: ns, cfg: cf.cfg, cb: cf.cb, unaddr: cf.unaddr}
+		if cf.cfg == cfgFull && !cf.unaddr {
 			rc.app = p.app
 		}
 		return check(c, rc, p.name+"/"+r.kind+"/"+r.el.name.Local, stanzaDoc(h, ns, "", nodes)+streamEnd)
